@@ -2,12 +2,12 @@ CHECK = dict(
     level='model_checking', engine='vsched',
     parts=[dict(name='c05', src=['harness/c05_ringbuf.c'], workers=64,
                 objs=[('@VERIF@/harness/c05_scn.c', ['-fsanitize=thread'])],
-                deadline=dict(quick=120, thorough=1500)),
+                deadline=dict(quick=400, thorough=3000)),
            # sequential family (harness/c05_seq.c): cheap, so it runs on every build variant and under AddressSanitizer
-           dict(name='c05seq', src=['harness/c05_seq.c'], lib=['ringbuf.c'], workers=16, deadline=dict(quick=120, thorough=600)),
+           dict(name='c05seq', src=['harness/c05_seq.c'], lib=['ringbuf.c'], workers=16, deadline=dict(quick=300, thorough=1800)),
            dict(name='c05seqasan', variant='gcc -O1 AddressSanitizer', src=['harness/c05_seq.c'], lib=['ringbuf.c'], workers=16,
                 cflags=['-O1', '-fsanitize=address', '-fsanitize-recover=address', '-fno-omit-frame-pointer', '-DC05_ASAN'],
-                deadline=dict(quick=240, thorough=600))],
+                deadline=dict(quick=300, thorough=1800))],
     rule='stateless exploration of every schedule of the real ringbuf.c (compiled with -fsanitize=thread against the '
          'replacement runtime engine/vsched.c: a scheduling point before every atomic operation, interrupt handlers injected '
          'as nested run-to-completion calls, spins made blocking), depth-first over choice sequences with a visited set of '
